@@ -1,0 +1,163 @@
+// Verification hooks, compiled only with the `verif-hooks` cargo feature (off by default).
+//
+// Every hook is thread-local. When nothing is installed on the calling thread each hook is the
+// identity, so enabling the feature alone does not change behaviour. The simulator which drives
+// these lives outside this repository.
+
+#![allow(missing_docs)]
+
+use std::cell::RefCell;
+use std::ops::{Deref, DerefMut};
+use std::sync::{Arc, LockResult, PoisonError, TryLockError};
+use std::time::SystemTime;
+
+/// Scheduler callbacks for [`Mutex`]. Mutexes are identified by address.
+pub trait Sched: Send + Sync {
+    /// Before every attempt to acquire; may park the calling thread until it is scheduled.
+    fn before_acquire(&self, id: usize);
+
+    /// The attempt failed because another thread holds the mutex; returns once it is worth
+    /// retrying.
+    fn blocked(&self, id: usize);
+
+    /// The mutex has been acquired by the calling thread.
+    fn acquired(&self, id: usize);
+
+    /// The mutex has been released by the calling thread.
+    fn released(&self, id: usize);
+}
+
+type ClockFn = Box<dyn FnMut(SystemTime) -> SystemTime>;
+type ReadFn = Box<dyn FnMut(&std::fs::File, usize, u64) -> std::io::Result<usize>>;
+
+thread_local! {
+    static SCHED: RefCell<Option<Arc<dyn Sched>>> = const { RefCell::new(None) };
+    static CLOCK: RefCell<Option<ClockFn>> = const { RefCell::new(None) };
+    static READ: RefCell<Option<ReadFn>> = const { RefCell::new(None) };
+}
+
+/// Installs (or with `None` removes) the calling thread's scheduler.
+pub fn set_sched(s: Option<Arc<dyn Sched>>) {
+    SCHED.with(|c| *c.borrow_mut() = s);
+}
+
+/// Installs (or removes) the calling thread's clock. It receives the real time and returns the
+/// time `serve` should believe.
+pub fn set_clock(f: Option<ClockFn>) {
+    CLOCK.with(|c| *c.borrow_mut() = f);
+}
+
+/// Installs (or removes) the calling thread's read hook; see [`before_read`].
+pub fn set_read_hook(f: Option<ReadFn>) {
+    READ.with(|c| *c.borrow_mut() = f);
+}
+
+fn sched() -> Option<Arc<dyn Sched>> {
+    SCHED.with(|c| c.borrow().clone())
+}
+
+/// Clock seam: called with the result of `SystemTime::now()`.
+pub fn now(real: SystemTime) -> SystemTime {
+    CLOCK.with(|c| match c.borrow_mut().as_mut() {
+        Some(f) => f(real),
+        None => real,
+    })
+}
+
+/// Read seam: called at the start of every positioned read with the file, the requested size and
+/// the offset. The hook may change the file, return a smaller size (short read) or an error.
+pub fn before_read(
+    file: &std::fs::File,
+    chunk_size: usize,
+    offset: u64,
+) -> std::io::Result<usize> {
+    // Take the hook out while it runs so that it may itself read files.
+    let f = READ.with(|c| c.borrow_mut().take());
+    match f {
+        Some(mut f) => {
+            let r = f(file, chunk_size, offset);
+            READ.with(|c| {
+                let mut c = c.borrow_mut();
+                if c.is_none() {
+                    *c = Some(f);
+                }
+            });
+            r.map(|n| n.min(chunk_size))
+        }
+        None => Ok(chunk_size),
+    }
+}
+
+/// Drop-in for the subset of `std::sync::Mutex` that `chunker.rs` uses.
+pub struct Mutex<T>(std::sync::Mutex<T>);
+
+pub struct MutexGuard<'a, T> {
+    guard: Option<std::sync::MutexGuard<'a, T>>,
+    sched: Option<(Arc<dyn Sched>, usize)>,
+}
+
+impl<T> Mutex<T> {
+    pub fn new(t: T) -> Self {
+        Mutex(std::sync::Mutex::new(t))
+    }
+
+    pub fn lock(&self) -> LockResult<MutexGuard<'_, T>> {
+        let Some(s) = sched() else {
+            return match self.0.lock() {
+                Ok(g) => Ok(MutexGuard {
+                    guard: Some(g),
+                    sched: None,
+                }),
+                Err(p) => Err(PoisonError::new(MutexGuard {
+                    guard: Some(p.into_inner()),
+                    sched: None,
+                })),
+            };
+        };
+        let id = self as *const Self as *const () as usize;
+        loop {
+            s.before_acquire(id);
+            match self.0.try_lock() {
+                Ok(g) => {
+                    s.acquired(id);
+                    return Ok(MutexGuard {
+                        guard: Some(g),
+                        sched: Some((s, id)),
+                    });
+                }
+                Err(TryLockError::Poisoned(p)) => {
+                    s.acquired(id);
+                    return Err(PoisonError::new(MutexGuard {
+                        guard: Some(p.into_inner()),
+                        sched: Some((s, id)),
+                    }));
+                }
+                Err(TryLockError::WouldBlock) => s.blocked(id),
+            }
+        }
+    }
+}
+
+impl<T> Deref for MutexGuard<'_, T> {
+    type Target = T;
+    fn deref(&self) -> &T {
+        self.guard.as_ref().expect("guard present until drop")
+    }
+}
+
+impl<T> DerefMut for MutexGuard<'_, T> {
+    fn deref_mut(&mut self) -> &mut T {
+        self.guard.as_mut().expect("guard present until drop")
+    }
+}
+
+impl<T> Drop for MutexGuard<'_, T> {
+    fn drop(&mut self) {
+        self.guard = None; // unlock first.
+        if let Some((s, id)) = self.sched.take() {
+            if !std::thread::panicking() {
+                s.released(id);
+            }
+        }
+    }
+}
